@@ -36,6 +36,11 @@ def run_in_child(fn, timeout=CHILD_TIMEOUT):
         try:
             gc.disable()
             os.close(r)
+            # stdout of this process is the JSON-lines channel of the run server: anything the code under test
+            # prints (dawgie prints warnings when TLS is off) must not reach it
+            devnull = os.open(os.devnull, os.O_WRONLY)
+            os.dup2(devnull, 1)
+            sys.stdout = open(os.devnull, 'w')
             faulthandler.dump_traceback_later(timeout - 5, exit=True)
             try:
                 res = fn()
